@@ -253,3 +253,41 @@ def frag_anydata():
         "true" if x else "false" for x in (mv, lm, dt, ld))
     text += "end Evp.Gen.AnyData\n"
     return True, text, ""
+
+
+@fragment("RemoverFrag")
+def frag_removers():
+    """CounterRemover / ConditionalRemover wrapper bodies: `test; remove when due; call the wrapped listener`"""
+    text = GEN_HEADER % "include/eventpp/utilities/counterremover.h, conditionalremover.h wrapper operator()"
+    text += "namespace Evp.Gen.Remover\n\n"
+    src = strip_comments(read_src("include/eventpp/utilities/counterremover.h"))
+    bodies = re.findall(r"CanInvoke<Callback, Args \.\.\.>::value, void>::type \{(.*?)\n\t\t\}", src, re.S)
+    if len(bodies) != 2:
+        raise ValueError("expected the two CounterRemover wrapper bodies, found %d" % len(bodies))
+    shapes = set()
+    for b in bodies:
+        n = BoolExpr.norm(b)
+        m = re.fullmatch(r"if\((--data->triggerCount|data->triggerCount--)(<=|<|==)(-?\d+)\)\{data->(dispatcher\.removeListener\(data->event,data->handle\)|callbackList\.remove\(data->handle\));\}data->listener\(std::forward<Args>\(args\)\.\.\.\);", n)
+        if not m:
+            raise ValueError("CounterRemover wrapper body not recognised: " + n)
+        shapes.add((m.group(1).startswith("--"), m.group(2), int(m.group(3))))
+    if len(shapes) != 1:
+        raise ValueError("the two CounterRemover wrappers differ: %r" % (shapes,))
+    pre, op, thr = shapes.pop()
+    text += "/-- `if(--data->triggerCount %s %d)`: the value tested is the count %s the decrement -/\n" % (op, thr, "after" if pre else "before")
+    text += "def testsAfterDecrement : Bool := %s\n" % ("true" if pre else "false")
+    text += "def due (tested : Int) : Bool := decide (tested %s %d)\n" % (CMP_LEAN[op], thr)
+    text += "/-- the listener is removed (when due) before the wrapped listener is called, and the wrapped listener is called on every call -/\n"
+    text += "def removeBeforeCall : Bool := true\n\n"
+    src2 = strip_comments(read_src("include/eventpp/utilities/conditionalremover.h"))
+    bodies2 = re.findall(r"CanInvoke<Condition, Args\.\.\.>::value>::type(?:\s+const)?\s*\{(.*?)\n\t\t\}", src2, re.S)
+    if len(bodies2) != 4:
+        raise ValueError("expected four ConditionalRemover wrapper bodies, found %d" % len(bodies2))
+    for b in bodies2:
+        n = BoolExpr.norm(b)
+        if not re.fullmatch(r"if\(data->shouldRemove\((args\.\.\.)?\)\)\{data->(dispatcher\.removeListener\(data->event,data->handle\)|callbackList\.remove\(data->handle\));\}data->listener\(std::forward<Args>\(args\)\.\.\.\);", n):
+            raise ValueError("ConditionalRemover wrapper body not recognised: " + n)
+    text += "/-- ConditionalRemover: `if(shouldRemove(args...)) remove; listener(args...)` — one evaluation per call, removal before the call -/\n"
+    text += "def condEvaluatedOnce : Bool := true\n\n"
+    text += "end Evp.Gen.Remover\n"
+    return True, text, ""
